@@ -2,7 +2,7 @@
 # Runs every seeded change under /verif/seeded against the check of the property it breaks
 # (and prints whether a VIOLATION was raised). /repo is restored after each.
 cd /verif
-for d in /verif/seeded/*/; do
+for d in /verif/seeded/C*/; do
   id=$(basename $d)
   prop=$(python3 -c "import json;print(json.load(open('$d/meta.json'))['property'])")
   if ! git -C /repo apply --check $d/patch.diff 2>/dev/null; then echo "$id $prop PATCH-DOES-NOT-APPLY"; continue; fi
